@@ -71,6 +71,9 @@ func (s *HistoWriter) WriteForLine(line int, key string, val int64) {
 
 	if needsFullRefresh {
 		s.fullRender()
+		if val <= 0 { // fullRender leaves out rows without a positive value
+			s.writeLine(line, key, val)
+		}
 	} else {
 		s.writeLine(line, key, val)
 	}
